@@ -39,6 +39,7 @@ import ctypes
 import io
 import itertools
 import os
+import random
 import re
 import subprocess
 import pyrtl
@@ -50,7 +51,10 @@ RULE = ('(1) 2-word x 1-bit MemBlock, (nw,nr) write/read ports: every content (e
         'several initial contents; (2) seeded random designs of 1-4 MemBlocks (addr/data widths 1..70, 1-3 write and '
         '1-3 read ports, free Input addresses or low-bit-tagged addresses) x random histories from an address pool '
         'biased to 0, 2^aw-1, 2^31/2^32/2^63/2^64 neighbours and aliases mod 2^32 / 2^64, disabled ports colliding with '
-        'enabled ones, read-during-write; (2b) cross-talk family (every third design): 2-3 MemBlocks over one address space, at least two '
+        'enabled ones, read-during-write; write ports built in every form the API offers (EnabledWrite, plain <<=, Const enables, and one port '
+        'under conditional_assignment with 1-3 branches mixing plain and EnabledWrite values, a disabled write being '
+        'either no branch or a taken branch whose own enable is 0); two instances of every simulator kind per design in one '
+        'process, memory_value_map keyword omitted when nothing is initialised; (2b) cross-talk family (every third design): 2-3 MemBlocks over one address space, at least two '
         'WITHOUT a memory_value_map entry, each driven to read and overwrite the addresses the others wrote, and the '
         'twin design (two 2-word memories sharing the address inputs) under a De Bruijn walk of all 64 joint operations; '
         '(3) RomBlocks from list/dict/function, short/sparse/out-of-range data, '
@@ -78,6 +82,13 @@ _REPORTED = {}
 _CTX = []          # the (capped) ctx, for the structural gates inside the runners
 _WORKDIR = []
 _PASS_EMPTY = [False]   # True: a memory without initial contents is passed as an explicit empty dict
+
+
+def mvm_kw(keys, inits):
+    """keyword arguments for a simulator constructor: when no memory has initial contents the memory_value_map
+    keyword is left out altogether (the constructor's own default is used), as a user would write it"""
+    m = mvm_of(keys, inits)
+    return {'memory_value_map': m} if (m or _PASS_EMPTY[0]) else {}
 
 
 def mvm_of(keys, inits):
@@ -131,7 +142,13 @@ class MemCfg(object):
     argument (exact width) whose next value is an Input, so the port sees the input of the previous cycle;
     'const' a Const address; enable also 'c0' / 'c1' (Const) and 'implicit' (plain `mem[a] <<= d`)."""
 
-    def __init__(self, k, aw, dw, nw, nr, tagged=False, wk=None, rk=None):
+    def __init__(self, k, aw, dw, nw, nr, tagged=False, wk=None, rk=None, branches=None):
+        # branches: None = every write port is its own statement outside any conditional (plain <<= / EnabledWrite);
+        # a list of bools = ONE write port described inside a conditional_assignment block with one branch per
+        # entry (`with sel == i:`), the entry saying whether that branch writes `mem[a] |= EnabledWrite(d, en)`
+        # (True) or plain `mem[a] |= d` (False).  The memory then has one effective write port (nw == 1).
+        self.branches = list(branches) if branches else None
+        self.aux = None        # per-cycle inputs of the conditional form (selector and per-branch operands)
         self.k, self.aw, self.dw, self.nw, self.nr, self.tagged = k, aw, dw, nw, nr, tagged
         self.wk = [tuple(x) for x in wk] if wk else [('in', 'in', 'in', 0)] * nw
         self.rk = list(rk) if rk else ['in'] * nr
@@ -149,6 +166,8 @@ class MemCfg(object):
         if not self.plain():
             d['write_port_sources(addr,data,enable,const addr)'] = [list(w) for w in self.wk]
             d['read_port_sources'] = list(self.rk)
+        if self.branches:
+            d['conditional_assignment_branches(True=EnabledWrite,False=plain)'] = list(self.branches)
         return d
 
 
@@ -173,7 +192,20 @@ def build_design(cfgs):
         m = pyrtl.MemBlock(bitwidth=c.dw, addrwidth=c.aw, name='mem%d' % k, max_read_ports=None,
                            max_write_ports=None, asynchronous=True)
         c.mem = m
-        for i in range(c.nw):
+        if c.branches:
+            sel = pyrtl.Input(2, 'm%d_sel' % k)
+            operands = [(pyrtl.Input(c.aw, 'm%d_ba%d' % (k, i)), pyrtl.Input(c.dw, 'm%d_bd%d' % (k, i)),
+                         pyrtl.Input(1, 'm%d_be%d' % (k, i)) if en else None) for i, en in enumerate(c.branches)]
+            with pyrtl.conditional_assignment:
+                for i, (ba, bd, be) in enumerate(operands):
+                    with sel == i:
+                        if be is None:
+                            m[ba] |= bd
+                        else:
+                            m[ba] |= pyrtl.MemBlock.EnabledWrite(bd, enable=be)
+            net = m.writeport_nets[-1]
+            _PORT_OF[id(net)] = (k, 0, net)
+        for i in range(c.nw if not c.branches else 0):
             ak, dk, ek, ac = c.wk[i]
             if c.tagged:
                 hi = pyrtl.Input(c.aw - 2, 'm%d_wa%d' % (k, i))
@@ -214,8 +246,13 @@ def steps_of(cfgs, hists, ncyc):
             if t == ncyc - 1:
                 steps[t][name] = 0
     for c, h in zip(cfgs, hists):
+        if c.branches and (c.aux is None or len(c.aux) != ncyc):
+            c.aux = cond_inputs(random.Random(repr(h)), c, h)
         for t in range(ncyc):
             ws, rs = h[t]
+            if c.branches:
+                steps[t].update(c.aux[t])
+                ws = []
             for i, (a, d, e) in enumerate(ws):
                 ak, dk, ek, ac = c.wk[i]
                 if c.tagged:
@@ -227,6 +264,38 @@ def steps_of(cfgs, hists, ncyc):
             for j, a in enumerate(rs):
                 put(c.rk[j], 'm%d_ra%d' % (c.k, j), t, a)
     return steps
+
+
+def cond_inputs(rng, c, hist):
+    """inputs that make the conditional_assignment form present the given effective write (a, d, e) each cycle:
+    an enabled write goes through a random branch; a disabled one is EITHER no branch taken OR a taken
+    EnabledWrite branch whose own enable is 0; the operands of the branches not taken are random (their enables too)"""
+    nb = len(c.branches)
+    out = []
+    for (ws, rs) in hist:
+        (a, d, e), = ws
+        s = {}
+        for i, en in enumerate(c.branches):
+            s['m%d_ba%d' % (c.k, i)] = a if rng.random() < 0.5 else rng.getrandbits(c.aw)
+            s['m%d_bd%d' % (c.k, i)] = rng.getrandbits(c.dw)
+            if en:
+                s['m%d_be%d' % (c.k, i)] = rng.getrandbits(1)
+        enabled_form = [i for i, en in enumerate(c.branches) if en]
+        if e:
+            b = rng.randrange(nb)
+            if c.branches[b]:
+                s['m%d_be%d' % (c.k, b)] = 1
+        elif enabled_form and rng.random() < 0.6:
+            b = rng.choice(enabled_form)
+            s['m%d_be%d' % (c.k, b)] = 0
+        else:
+            b = rng.randrange(nb, 4)
+        s['m%d_sel' % c.k] = b
+        if b < nb:
+            s['m%d_ba%d' % (c.k, b)] = a
+            s['m%d_bd%d' % (c.k, b)] = d
+        out.append(s)
+    return out
 
 
 def verilog_envs(cfgs, hists, steps):
@@ -277,14 +346,14 @@ class quiet_gcc(object):
 
 def run_python_sim(cls, block, cfgs, mems, inits, dflt, steps):
     """returns (reads per memory per cycle, final items per memory, port orders per memory)"""
-    mvm = mvm_of(mems, inits)
+    mvm = mvm_kw(mems, inits)
     if cls is pyrtl.Simulation:
-        sim = cls(tracer=pyrtl.SimulationTrace(block=block), memory_value_map=mvm, default_value=dflt, block=block)
+        sim = cls(tracer=pyrtl.SimulationTrace(block=block), default_value=dflt, block=block, **mvm)
         nets = list(sim.mem_update_nets)
     else:
         codefile = os.path.join(_WORKDIR[0], 'c08_fastsim_code.py') if _WORKDIR else None
-        sim = cls(tracer=pyrtl.SimulationTrace(block=block), memory_value_map=mvm, default_value=dflt, block=block,
-                  code_file=codefile)
+        sim = cls(tracer=pyrtl.SimulationTrace(block=block), default_value=dflt, block=block,
+                  code_file=codefile, **mvm)
         nets = [n for n in block if n.op == '@']
         if codefile and _CTX:
             try:
@@ -307,7 +376,7 @@ def run_compiled(block, cfgs, mems, inits, steps, probes):
     try:
         with quiet_gcc():
             sim = pyrtl.CompiledSimulation(tracer=pyrtl.SimulationTrace(block=block),
-                                           memory_value_map=mvm_of(mems, inits), block=block)
+                                           block=block, **mvm_kw(mems, inits))
     except pyrtl.PyrtlError as e:
         raise PyrtlRejected(str(e))
     nets = list(block.logic_subset('@'))
@@ -359,8 +428,8 @@ def post_mems(ctx, post, mems, what):
 
 def run_post(ctx, cls, post, cfgs, pm, inits, dflt, steps, what):
     """Simulation-like class on a synthesized/optimized block; pm = [(key for memory_value_map, memory in block)]"""
-    mvm = mvm_of([key for key, _ in pm], inits)
-    sim = cls(tracer=pyrtl.SimulationTrace(block=post), memory_value_map=mvm, default_value=dflt, block=post)
+    sim = cls(tracer=pyrtl.SimulationTrace(block=post), default_value=dflt, block=post,
+              **mvm_kw([key for key, _ in pm], inits))
     for s in steps:
         sim.step(dict(s))
     tr = sim.tracer.trace
@@ -381,7 +450,7 @@ def run_post_bitio(ctx, block, cfgs, mems, inits, dflt, steps):
             return {name: v}
         return {'%s[%d]' % (name, i): (v >> i) & 1 for i in range(w)}
     sim = pyrtl.Simulation(tracer=pyrtl.SimulationTrace(block=post),
-                           memory_value_map=mvm_of([key for key, _ in pm], inits),
+                           **mvm_kw([key for key, _ in pm], inits),
                            default_value=dflt, block=post)
     for s in steps:
         d = {}
@@ -949,8 +1018,17 @@ def random_part(ctx, chk, ndesigns, ncyc_range, compiled_every, post_every, veri
                 cfgs.append(MemCfg(k, aw, dw, nw, nr, tagged))
             pools = [addr_pool(rng, c.aw) for c in cfgs]
         for c, pool in zip(cfgs, pools):
-            if not c.tagged and rng.random() < (0.5 if not cross else 0.35):
+            if not c.tagged and rng.random() < 0.22:
+                # the write port is described inside conditional_assignment: 1-3 branches on this memory, plain and
+                # EnabledWrite values mixed
+                c.nw, c.wk = 1, [('in', 'in', 'in', 0)]
+                c.branches = [rng.random() < 0.6 for _ in range(rng.randint(1, 3))]
+                ctx.count('write_construction', 'conditional_assignment: ' +
+                          '+'.join('EnabledWrite' if b else 'plain' for b in c.branches))
+            elif not c.tagged and rng.random() < (0.5 if not cross else 0.35):
                 draw_sources(rng, c, pool)
+            if not c.branches:
+                ctx.count('write_construction', 'statements outside conditionals')
             for w in c.wk:
                 ctx.count('write_port_sources(addr/data/enable)', '%s/%s/%s' % w[:3])
             for r in c.rk:
@@ -1004,9 +1082,15 @@ def random_part(ctx, chk, ndesigns, ncyc_range, compiled_every, post_every, veri
         res = case['results']
         res['sim'] = run_python_sim(pyrtl.Simulation, block, cfgs, mems, inits, dflt, steps)
         res['fast'] = run_python_sim(pyrtl.FastSimulation, block, cfgs, mems, inits, dflt, steps)
+        # a simulator object is a fresh memory: further instances of each kind on the same design, in the same process,
+        # after the others have run, must again start from the initial contents
+        res['fast/2nd instance'] = run_python_sim(pyrtl.FastSimulation, block, cfgs, mems, inits, dflt, steps)[:2]
+        res['sim/2nd instance'] = run_python_sim(pyrtl.Simulation, block, cfgs, mems, inits, dflt, steps)[:2]
         if dflt == 0 and di % compiled_every == 0:
             try:
                 res['compiled'] = run_compiled(block, cfgs, mems, inits, steps, case['probes'])
+                if di % (4 * compiled_every) == 0:
+                    res['compiled/2nd instance'] = run_compiled(block, cfgs, mems, inits, steps, case['probes'])[:2]
                 if any(c.aw > 64 for c in cfgs):
                     ctx.count('compiled_wide_address', 'accepted')
             except PyrtlRejected as e:
@@ -1035,7 +1119,7 @@ def random_part(ctx, chk, ndesigns, ncyc_range, compiled_every, post_every, veri
                                            {'seed': ctx.seed, 'design': di, 'memories': [c.desc() for c in sub]})
                     for c, m in zip(cfgs, mems):
                         c.mem = m
-        if di % verilog_every == 0 and not any(c.tagged for c in cfgs):
+        if di % verilog_every == 0 and not any(c.tagged or c.branches for c in cfgs):
             buf = io.StringIO()
             try:
                 pyrtl.output_to_verilog(buf, block=block)
@@ -1059,6 +1143,7 @@ def random_part(ctx, chk, ndesigns, ncyc_range, compiled_every, post_every, veri
             post = pyrtl.synthesize(update_working_block=False, block=block)
             pm = post_mems(ctx, post, mems, 'synthesize')
             res['synth'] = run_post(ctx, pyrtl.Simulation, post, cfgs, pm, inits, dflt, steps, 'synthesize')
+            res['synth/fast'] = run_post(ctx, pyrtl.FastSimulation, post, cfgs, pm, inits, dflt, steps, 'synthesize')
             pyrtl.optimize(update_working_block=True, block=post)
             res['synth+opt'] = run_post(ctx, pyrtl.Simulation, post, cfgs, pm, inits, dflt, steps, 'optimize')
             if di % (2 * post_every) == 0:
@@ -1125,7 +1210,9 @@ def random_part(ctx, chk, ndesigns, ncyc_range, compiled_every, post_every, veri
                 r = res[backend]
                 if r[0][mi] is None:
                     continue
-                if backend == 'compiled':
+                if backend == 'compiled/2nd instance':
+                    chk.compare(c, backend, init, 0, hist, py_reads, py_final, r[0][mi], r[1][mi], probes, replay, 'probes')
+                elif backend == 'compiled':
                     ok = chk.compare(c, backend, init, 0, hist, py_reads, py_final, r[0][mi], r[1][mi], probes, replay,
                                      'probes', tie=(comp_r, comp_f))
                     if not ok and c.aw > 64 and len(details) < 3:
@@ -1242,7 +1329,7 @@ def sweep_part(ctx, chk, configs, dflts):
                         ('fast', pyrtl.FastSimulation, block, mem, mem),
                         ('synth', pyrtl.Simulation, be['synth'][0], be['synth'][1][0][0], be['synth'][1][0][1]),
                         ('synth+opt', pyrtl.Simulation, be['synth+opt'][0], be['synth+opt'][1][0][0], be['synth+opt'][1][0][1])):
-                    sim = cls(tracer=pyrtl.SimulationTrace(block=blk), memory_value_map=mvm_of([key], [content]),
+                    sim = cls(tracer=pyrtl.SimulationTrace(block=blk), **mvm_kw([key], [content]),
                               default_value=dflt, block=blk)
                     if name == 'sim':
                         order = port_order(list(sim.mem_update_nets), 0)
@@ -1262,7 +1349,7 @@ def sweep_part(ctx, chk, configs, dflts):
                 if dflt == 0:
                     try:
                         sim = pyrtl.CompiledSimulation(tracer=pyrtl.SimulationTrace(block=block),
-                                                       memory_value_map=mvm_of([mem], [content]), block=block)
+                                                       block=block, **mvm_kw([mem], [content]))
                         order = port_order(list(block.logic_subset('@')), 0)
                         rows = []
                         for t, s in enumerate(steps_all):
@@ -1318,7 +1405,7 @@ def walk_part(ctx, chk, walks):
     for walk in walks:
         (nw, nr, order, inits, dflts), opt = walk[:5], (walk[5] if len(walk) > 5 else {})
         # opt: operand sources of the ports ('wk', 'rk'), the sub-alphabet of operations they can present ('pred')
-        cfg = MemCfg(0, 1, 1, nw, nr, wk=opt.get('wk'), rk=opt.get('rk'))
+        cfg = MemCfg(0, 1, 1, nw, nr, wk=opt.get('wk'), rk=opt.get('rk'), branches=opt.get('branches'))
         cfg.label = opt.get('label', 'inputs')
         ops = ok_ops(nw, nr)
         alphabet = [i for i, op in enumerate(ops) if opt.get('pred', lambda op: True)(op)]
@@ -1332,6 +1419,9 @@ def walk_part(ctx, chk, walks):
                 res = {}
                 res['sim'] = run_python_sim(pyrtl.Simulation, block, [cfg], [mem], [content], dflt, steps)
                 res['fast'] = run_python_sim(pyrtl.FastSimulation, block, [cfg], [mem], [content], dflt, steps)
+                if content == inits[0]:
+                    res['fast/2nd instance'] = run_python_sim(pyrtl.FastSimulation, block, [cfg], [mem], [content], dflt, steps)[:2]
+                    res['sim/2nd instance'] = run_python_sim(pyrtl.Simulation, block, [cfg], [mem], [content], dflt, steps)[:2]
                 if dflt == 0:
                     try:
                         res['compiled'] = run_compiled(block, [cfg], [mem], [content], steps, [[0, 1]])
@@ -1412,6 +1502,8 @@ def twin_part(ctx, chk, order, init_pairs, dflts):
             res = {}
             res['sim'] = run_python_sim(pyrtl.Simulation, block, cfgs, mems, inits, dflt, steps)
             res['fast'] = run_python_sim(pyrtl.FastSimulation, block, cfgs, mems, inits, dflt, steps)
+            res['fast/2nd instance'] = run_python_sim(pyrtl.FastSimulation, block, cfgs, mems, inits, dflt, steps)[:2]
+            res['sim/2nd instance'] = run_python_sim(pyrtl.Simulation, block, cfgs, mems, inits, dflt, steps)[:2]
             if dflt == 0:
                 try:
                     res['compiled'] = run_compiled(block, cfgs, mems, inits, steps, [[0, 1], [0, 1]])
@@ -1775,6 +1867,8 @@ def run(real_ctx):
                              (1, 1, 2, [[(1, 1)]], [0], {'wk': [('reg', 'in', 'in', 0)], 'rk': ['reg'], 'label': 'write address and read address from registers'}),
                              (2, 1, 2, [[], [(0, 1), (1, 1)]], [0], {'wk': [('in', 'in', 'in', 0), ('in', 'in', 'c0', 0)], 'pred': lambda op: op[0][1][2] == 0, 'label': 'second port tied off (enable Const 0)'}),
                              (2, 1, 2, [[]], [0], {'wk': [('in', 'reg', 'in', 0), ('const', 'in', 'c1', 1)], 'pred': lambda op: op[0][1][2] == 1 and op[0][1][0] == 1, 'label': 'second port always writes address 1 (Const address, Const 1 enable), first port data from a register'}),
+                             (1, 1, 3, [[], [(0, 1)]], [0, 1], {'branches': [False, True], 'label': 'one port under conditional_assignment: a plain branch and an EnabledWrite branch'}),
+                             (1, 1, 2, [[(1, 1)]], [0], {'branches': [True, False, True], 'label': 'one port under conditional_assignment: EnabledWrite, plain, EnabledWrite branches'}),
                              (1, 1, 2, [[(0, 1)]], [0], {'wk': [('reg', 'reg', 'implicit', 0)], 'pred': lambda op: op[0][0][2] == 1, 'label': 'unconditional write, address and data from registers'})])
         _timed(ctx, 'twin_part', twin_part, ctx, chk, 2, [[[], []], [[], [(0, 1)]], [[(1, 1)], []]], [0, 1])
         _timed(ctx, 'random_part', random_part, ctx, chk, ndesigns=72, ncyc_range=(30, 70), compiled_every=2, post_every=3, verilog_every=2)
@@ -1790,6 +1884,8 @@ def run(real_ctx):
                              (1, 1, 3, [[], [(1, 1)]], [0], {'wk': [('reg', 'in', 'in', 0)], 'rk': ['reg'], 'label': 'write address and read address from registers'}),
                              (2, 1, 2, [[], [(0, 1), (1, 1)]], [0], {'wk': [('in', 'in', 'in', 0), ('in', 'in', 'c0', 0)], 'pred': lambda op: op[0][1][2] == 0, 'label': 'second port tied off (enable Const 0)'}),
                              (2, 1, 3, [[], [(1, 0)]], [0], {'wk': [('in', 'reg', 'in', 0), ('const', 'in', 'c1', 1)], 'pred': lambda op: op[0][1][2] == 1 and op[0][1][0] == 1, 'label': 'second port always writes address 1 (Const address, Const 1 enable), first port data from a register'}),
+                             (1, 1, 4, [[], [(0, 1)]], [0, 1], {'branches': [False, True], 'label': 'one port under conditional_assignment: a plain branch and an EnabledWrite branch'}),
+                             (1, 1, 3, [[], [(1, 1)]], [0, 1], {'branches': [True, False, True], 'label': 'one port under conditional_assignment: EnabledWrite, plain, EnabledWrite branches'}),
                              (1, 1, 3, [[], [(0, 1)]], [0], {'wk': [('reg', 'reg', 'implicit', 0)], 'pred': lambda op: op[0][0][2] == 1, 'label': 'unconditional write, address and data from registers'})])
         _timed(ctx, 'twin_part', twin_part, ctx, chk, 2, [[[], []], [[], [(0, 1)]], [[(1, 1)], []], [[(0, 0)], [(0, 1), (1, 1)]]], [0, 1])
         _timed(ctx, 'random_part', random_part, ctx, chk, ndesigns=700, ncyc_range=(30, 120), compiled_every=1, post_every=2, verilog_every=2)
@@ -1811,7 +1907,8 @@ def replay(real_ctx, data):
     chk = Checker(ctx)
     m = rep['memory']
     cfg = MemCfg(0, m['addrwidth'], m['bitwidth'], m['write_ports'], m['read_ports'], m.get('tagged_low_bits', False),
-                 wk=m.get('write_port_sources(addr,data,enable,const addr)'), rk=m.get('read_port_sources'))
+                 wk=m.get('write_port_sources(addr,data,enable,const addr)'), rk=m.get('read_port_sources'),
+                 branches=m.get('conditional_assignment_branches(True=EnabledWrite,False=plain)'))
     hist = [([tuple(w) for w in ws], list(rs)) for ws, rs in rep['history']]
     init = [tuple(p) for p in rep.get('memory_value_map', [])]
     dflt = rep.get('default_value', 0)
